@@ -128,6 +128,8 @@ def _exec(stmts, env: Dict[str, object]) -> None:
             env[st.targets[0].id] = _value(st.value, env)
         elif isinstance(st, ast.AugAssign) and isinstance(st.target, ast.Name):
             cur = env.get(st.target.id)
+            if isinstance(cur, tuple):
+                raise AnalysisError(f"segment machine: `{short(st)}` updates a word of which only the lowest bit is followed")
             if isinstance(st.op, (ast.RShift,)):
                 continue  # shifting the masks: handled by the caller (bit supply)
             if not isinstance(cur, int) or isinstance(cur, bool):
@@ -161,6 +163,14 @@ def _value(node: ast.AST, env: Dict[str, object]):
         name = dotted(node.left)
         if name and f"bit:{name}" in env:
             return env[f"bit:{name}"]
+        if name and isinstance(env.get(name), tuple) and env[name][0] == "lowbit":
+            return env[name][1]
+    if isinstance(node, (ast.BinOp, ast.UnaryOp)) and isinstance(node.op, (ast.BitAnd, ast.BitOr, ast.BitXor, ast.Invert)) and not _masked_by_one(node):
+        names = [x.id for x in ast.walk(node) if isinstance(x, ast.Name)]
+        if names and all(f"bit:{x}" in env for x in names) and all(isinstance(x, (ast.Name, ast.BinOp, ast.UnaryOp, ast.BitAnd, ast.BitOr, ast.BitXor, ast.Invert, ast.Load)) for x in ast.walk(node)):
+            # a word computed from the masks as they are NOW: only its lowest bit is kept (any other use of it
+            # than `<name> & 1` is refused below)
+            return ("lowbit", _lowbit(node, env))
     if isinstance(node, ast.BinOp) and isinstance(node.op, ast.BitAnd) and _masked_by_one(node):
         return _lowbit(node, env)
     if isinstance(node, ast.Call) and dotted(node.func) in ("bool", "int") and len(node.args) == 1:
@@ -209,7 +219,10 @@ def _truth(node: ast.AST, env: Dict[str, object]) -> bool:
         if isinstance(op, (ast.Is, ast.IsNot)):
             return (a is b) == isinstance(op, ast.Is)
         raise AnalysisError(f"segment machine: comparison `{short(node)}` not supported")
-    return bool(_value(node, env))
+    val = _value(node, env)
+    if isinstance(val, tuple):
+        raise AnalysisError(f"segment machine: `{short(node)}` tests a whole word of which only the lowest bit is followed")
+    return bool(val)
 
 
 def segment_machine(prog: Program) -> RuleResult:
@@ -291,7 +304,7 @@ def segment_machine(prog: Program) -> RuleResult:
             return env0
 
         probe = initial(0, 0)
-        bools = [n for n in state_names if isinstance(probe.get(n), bool)]
+        bools = [n for n in state_names if isinstance(probe.get(n), (bool, tuple))]
         ints = [n for n in state_names if isinstance(probe.get(n), int) and not isinstance(probe.get(n), bool)]
         if len(bools) + len(ints) != len(state_names):
             raise AnalysisError("subseq_segment_dist: a state variable is neither Boolean nor integer")
